@@ -7,9 +7,6 @@ NA = {
     'C03': 'correctness depends on the runtime value of an 8-bit traversal-epoch counter against per-node stamps left by '
            'earlier walks; any static rule (counter width, purge-on-wrap) would reject correct redesigns or accept '
            'incorrect ones.',
-    'C06': 'which placement branch runs, whether a value fits and what a rollback restores depend on the runtime slot '
-           'occupancy pattern; no structural clause of the map/fit-boundary behaviour is visible in code shape (the '
-           'counter-accounting clause is decided under C07).',
 }
 
 PENDING = 'check not built yet in this revision (planned static rule set: DESIGN.md section 4)'
@@ -444,3 +441,44 @@ CHECKS['C19'].update(text=CHECKS['C19']['text'] + ' Q2: every path from the entr
                      'terminator store into the destination or a delegation of (dst, size) to another routine of the family.')
 CHECKS['C17'].update(text=CHECKS['C17']['text'] + ' LP3: inside a rewrite-and-rescan loop a cursor into the new text is its start or a search result; '
                      'new text + a variable offset is refused unless the offset is compared with the new text\'s length.')
+
+
+# ---- C06 claimed from wave 10 on (thin partial claim; it was n/a before) ---------------------------------------------------------
+CHECKS['C06'] = dict(
+    category='other',
+    text='Decides the accounting, roll-back and key-matching clauses only - not the map behaviour over histories, the out-of-space '
+         'boundary or the three-way placement, which depend on the runtime occupancy pattern. K1 occupation accounting: every '
+         'chunk-loop iteration of the writer that copies payload into a slot passes exactly one usedslots++ (path counting), num++ only '
+         'on the leading-slot arm and at most once per iteration. K2 release accounting: in the releaser each remove_slot() is followed '
+         'by exactly one usedslots-- before the next release/exit; num-- exactly once on every path. K3 roll-back: after the writer '
+         'stored the entry\'s count through its index parameter no failing return is reachable without remove_data() on that index. K4 '
+         'match predicate: the lookup reports a slot only on paths on which the length test, the stored-key memcmp and - unless the key '
+         'is known to fit the slot - the digest memcmp succeeded. I10 the digest is consulted only for key sizes for which the writer '
+         'computed it. I11 every release of an entry goes with the chain-counter bookkeeping. Each is a necessary condition of "exact '
+         'map with exact space accounting": breaking it makes the counters drift, leaves a half-written key, or confuses two keys.',
+    note='Thin by design: which branch of the placement runs, whether a value fits and which keys collide are runtime facts; the '
+         'slot-index range assumption of C07 applies.',
+    technique='static path-counting and must-pass-through rules on per-function CFGs (clang JSON AST), fact-set path search for the match predicate',
+    design_ref='4-C06',
+)
+
+
+# ---- wave-11 extensions (round for C08 C17 C19 C20, refactor set cfg2, C06 claimed) ------------------------------------------------------
+CHECKS['C17'].update(text=CHECKS['C17']['text'] + ' LP4: a recursive descent of the parser units is bounded - every path to the recursive call '
+                     'passes an ordering test of a per-level quantity against a constant limit, one edge of which cannot (feasibly, flag '
+                     'locals evaluated) reach the call. W3 (byte-table indexes within 0..255) is also run over the decoder units, through '
+                     'static helpers: every actual argument of an index parameter must be a byte value. BW1 imports bounds from a validating '
+                     'helper (non-NULL result => the helper\'s must-facts about its parameter at its non-NULL returns); LP2 accepts a budget '
+                     'kept by a helper (`charge(&budget, ..)` updating *param monotonically and comparing it with a constant).')
+CHECKS['C19'].update(text=CHECKS['C19']['text'] + ' Q3: in the overlap-tolerant copy routines no store into the destination precedes the memmove '
+                     'that reads the source. W6: a loop that overwrites L bytes at its scan cursor continues at cursor + L (polynomial '
+                     'equality), not inside the bytes it wrote. W3 also judges smaller tables indexed by a value computed from a byte '
+                     '(bitmaps `map[c >> 3]`): the interval of the index, from plain char [-128,127] / unsigned char [0,255] through >>, &, +, '
+                     'must lie inside the table. Q1 understands a clamp through a min() helper and a counted-down room variable.')
+CHECKS['C20'].update(text=CHECKS['C20']['text'] + ' B8: the number classifier behind the INT/FLOAT check (found by role: static, one string '
+                     'parameter, returns 0/1/2) does not decide through strtol/strtod/atoi/atof/sscanf, whose language is wider than the '
+                     'documented one. B9: the raw value is trimmed on every path before the ${} expansion and the expansion result reaches '
+                     'the table\'s put without passing through another call.')
+CHECKS['C09'].update(text=CHECKS['C09']['text'] + ' E7 follows a static copy-out helper (memcpy of its parameters, returns destination + length) '
+                     'and accepts `size - (comparison)` as the string-element length.')
+CHECKS['C12'].update(text=CHECKS['C12']['text'] + ' R3 treats a static helper that returns a fresh copy as fresh for cursor fields too.')
